@@ -2,6 +2,8 @@
 from lib.facts import Site, norm
 from lib.rules import G, fmt_path, agg_sites
 
+from lib.tables import strip_suffix  # noqa: E402
+
 META = dict(
     level='other',
     explanation=(
@@ -39,7 +41,7 @@ def rule(ctx):
         ctx.call_sites += 1
         last = None
         for v, labs, _bb in p.conds:
-            if poll_rx.match(v.split('#')[0]) and '@' not in v.split(')')[-1]:
+            if poll_rx.match(strip_suffix(v)) and '@' not in v.split(')')[-1]:
                 last = (v, labs)
         ok = last is not None and set(last[1]) == {'Pending'}
         ctx.check(ok, 'K10', 'RtrListener::poll_next:Pending<=pending-subpoll',
